@@ -226,6 +226,51 @@ def random_call(rnd, c, step=0, kinds=None):
     return dict(kind=k)
 
 
+def corrupt_call(call, c, rnd):
+    """A call the circuit must reject (a label that does not exist, a label that is taken, ...)."""
+    call = dict(call)
+    k = call["kind"]
+    labs = list(c.gates)
+    if k in ("add_gate", "emplace_gate") and call.get("operands"):
+        ops = list(call["operands"])
+        ops[rnd.randrange(len(ops))] = "missing_gate"
+        call["operands"] = ops
+        if rnd.random() < 0.3 and labs:
+            call["label"] = rnd.choice(labs)
+    elif k == "rename_gate":
+        if rnd.random() < 0.5 and labs:
+            call["new"] = rnd.choice(labs)
+        else:
+            call["old"] = "missing_gate"
+    elif k in ("remove_gate", "mark_as_output"):
+        call["label"] = "missing_gate"
+    elif k in ("set_outputs", "order_outputs", "order_inputs", "set_inputs"):
+        call["labels"] = list(call["labels"]) + ["missing_gate"]
+    elif k == "add_inputs" and labs:
+        call["labels"] = list(call["labels"]) + [rnd.choice(labs)]
+    elif k == "replace_inputs" and labs:
+        call["true"] = list(call["true"]) + [rnd.choice(labs)]
+    elif k == "connect" and (call["this"] or call["other"]):
+        key = "this" if call["this"] else "other"
+        t = list(call[key])
+        t[-1] = "missing_gate"
+        call[key] = t
+    elif k == "replace_subcircuit" and call["outputs_mapping"]:
+        om = dict(call["outputs_mapping"])
+        kk = list(om)[-1]
+        om["missing_gate"] = om.pop(kk)
+        call["outputs_mapping"] = om
+    elif k == "make_block":
+        call["gates"] = list(call["gates"]) + ["missing_gate"]
+    elif k == "make_block_from_slice":
+        call["outputs"] = list(call["outputs"]) + ["missing_gate"]
+    elif k in ("delete_block", "remove_block"):
+        call["name"] = "missing_block"
+    else:
+        return None
+    return call
+
+
 def _toposort(gates, known):
     out, pending = [], list(gates)
     known = set(known)
